@@ -477,6 +477,14 @@ class SSeries:
 
     def _bin(self, o, op):
         if isinstance(o, SSeries):
+            # pandas refuses to compare, and aligns for arithmetic, series whose labels differ
+            if isinstance(self._index, _pd.Index) or isinstance(o._index, _pd.Index):
+                li = list(self.index) if not isinstance(self._index, SIndex) else None
+                ri = list(o.index) if not isinstance(o._index, SIndex) else None
+                if li is not None and ri is not None and li != ri:
+                    if op in ("__eq__", "__ne__", "__lt__", "__le__", "__gt__", "__ge__"):
+                        raise ValueError("Can only compare identically-labeled Series objects")
+                    raise Inconclusive("arithmetic between differently labelled series (alignment) is not modelled")
             o = o._arr()
         a = self._arr()
         if not isinstance(a, SArr):
